@@ -201,6 +201,8 @@ func main() {
 		os.WriteFile(filepath.Join(verif, "required_obligations.json"), data, 0o644)
 		sdata, _ := json.MarshalIndent(e.shapes(), "", " ")
 		os.WriteFile(filepath.Join(verif, "baseline_shapes.json"), sdata, 0o644)
+		ndata, _ := json.MarshalIndent(e.currentNames(), "", " ")
+		os.WriteFile(filepath.Join(verif, "baseline_names.json"), ndata, 0o644)
 		for _, p := range sortedKeys(req) {
 			fmt.Println(p, len(req[p]))
 		}
@@ -299,6 +301,13 @@ func runCheck(repo, verif, prop, tier string, verbose bool) int {
 	}
 	var all []*Obligation
 	var undecided []string
+	for _, w := range e.loadWarnings {
+		// a lock-discipline declaration that no longer matches the code leaves that discipline unchecked
+		switch prop {
+		case "C10", "C11", "C12", "C13", "C17", "C19":
+			undecided = append(undecided, w)
+		}
+	}
 	evalErrFns := map[string]bool{}
 	baseShapes := map[string]Shape{}
 	if data, err := os.ReadFile(filepath.Join(verif, "baseline_shapes.json")); err == nil {
@@ -343,12 +352,16 @@ func runCheck(repo, verif, prop, tier string, verbose bool) int {
 			// that refers to an event which does not occur on some path (which a deletion can cause)
 			// (only errors in preconditions and in callee contracts at call sites: they leave the premises
 			// of the whole function unknown; an unevaluable rule of its own only loses that rule)
-			for _, pat := range []string{"unknown identifier", "selector .", "cannot index", "has no field", "numeric selector", "not a tuple"} {
+			for _, pat := range []string{"unknown identifier", "selector .", "cannot index", "has no field", "no field", "numeric selector", "not a tuple", "compared with nil"} {
 				if strings.HasPrefix(u, "contract ") && strings.Contains(u, pat) && !strings.Contains(u, "(in \"loop ") {
 					evalErrFns[fc.Key] = true
 				}
 				// an unevaluable loop invariant is a lost assumption: nothing after the loop is proved
 				if strings.HasPrefix(u, "loop invariant of "+fc.Key+":") && strings.Contains(u, pat) {
+					evalErrFns[fc.Key] = true
+				}
+				// so is an unevaluable lock invariant (assumed at every acquisition)
+				if strings.HasPrefix(u, "lock invariant ") && strings.Contains(u, pat) {
 					evalErrFns[fc.Key] = true
 				}
 			}
@@ -748,6 +761,9 @@ func (e *Engine) notAViolation(f *Obligation, name string, base map[string]Shape
 	if f.Kind == "cover" {
 		return "vacuity guard (the contract's preconditions are no longer satisfiable for this code)"
 	}
+	if e.aliasUsed[f.Fn] || e.aliasUsed[owner] {
+		return "names in the contract of " + f.Fn + " were resolved heuristically (a variable or field it names was renamed); the refutation may be an artefact of that"
+	}
 	if evalErrFns[f.Fn] {
 		return "the contract of " + f.Fn + " (or of a function it calls) cannot be evaluated against the current code"
 	}
@@ -792,6 +808,9 @@ func (e *Engine) notAViolation(f *Obligation, name string, base map[string]Shape
 			// the contract's loops were found again by the source form of their headers
 		} else if cur := e.shapeOf(fn); cur.Loops != b.Loops && (strings.Contains(name, "/loop") || strings.Contains(f.Note, "`loop ")) {
 			return fmt.Sprintf("%s now has %d loops where the baseline has %d: rules and invariants attached to loops by ordinal no longer denote the loops they were written for", k, cur.Loops, b.Loops)
+		}
+		if cur := e.shapeOf(fn); cur.Results != b.Results || cur.NParams != b.NParams {
+			return fmt.Sprintf("the signature of %s changed (%d parameters / %d results, baseline %d / %d): its contract speaks about other values", k, cur.NParams, cur.Results, b.NParams, b.Results)
 		}
 		if f.Kind == "arith" && !sameShape(b, e.shapeOf(fn)) {
 			return "assume:machine arithmetic treated as mathematical in " + k + " (its structure differs from the baseline; no-overflow obligation " + name + " not discharged)"
